@@ -24,6 +24,9 @@ pub fn opts() -> GenOpts {
     o.any = true;
     o.adjacent_optional_words = true;
     o.adjacent_in_adjacent = true;
+    // items may have environment fallbacks; in a third of the cases every declared variable is set
+    o.env = true;
+    o.env_only = false;
     o.usage_fallback = true;
     o.catch = true;
     o.adjacent_cmds = true;
@@ -99,6 +102,28 @@ pub fn run_case(case: &mut Case) {
     if nested_adjacent(&spec.root, false) {
         LONG_ITEM_MAX.with(|m| m.set(400));
         case.rep.count("shape:adjacent-in-adjacent");
+    }
+    struct Unset(Vec<String>);
+    impl Drop for Unset {
+        fn drop(&mut self) {
+            for v in &self.0 {
+                std::env::remove_var(v);
+            }
+        }
+    }
+    let mut env_guard = Unset(Vec::new());
+    if rng.chance(1, 3) {
+        let mut items = Vec::new();
+        spec.root.all_items(&mut items);
+        for it in &items {
+            for v in &it.names.envs {
+                std::env::set_var(v, "7");
+                env_guard.0.push(v.clone());
+            }
+        }
+        if !env_guard.0.is_empty() {
+            case.rep.count("cases-with-variables-set");
+        }
     }
     let h = spec.hash64();
     case.rep.definition(h);
